@@ -220,9 +220,18 @@ Section Archive.
     end.
 
   (* one iteration of the first loop of _thaw: reuse-or-create the Leaf, then ASSIGN the optional
-     attributes the frozen leaf has onto it -- except that the correlations of a node that was
+     attributes the frozen leaf has onto it -- except that the correlations and the ensemble of a node that was
      live already (its uid was registered before the call) are kept and the archived ones MERGED
      into them (fix: a load no longer erases correlations declared after the dump) *)
+  (* l.ensemble.update(archived) on a node that was live already: sorted duplicate-free union *)
+  Definition kltb (a b : key) : bool := (fst a <? fst b)%Z || ((fst a =? fst b)%Z && (snd a <? snd b)%Z).
+  Fixpoint ens_insert (k : key) (l : list key) : list key :=
+    match l with
+    | [] => [k]
+    | h :: t => if keqb k h then l else if kltb k h then k :: l else h :: ens_insert k t
+    end.
+  Definition ens_union (c e : list key) : list key := fold_left (fun acc k => ens_insert k acc) e c.
+
   Definition thaw_leaf (cx : actx) (kf : key * aleaf) : res actx :=
     let '(k, fl) := kf in
     let live := match assoc (cx_leaves cx) k with Some _ => true | None => false end in
@@ -233,7 +242,12 @@ Section Archive.
                     | true, Some c', Some c => Some (corr_merge c c')
                     | _, _, _ => or_else (al_corr fl) (al_corr l)
                     end)
-                   (or_else (al_ens fl) (al_ens l)) in
+                   (* a live node keeps its ensemble, extended by the archived members (fix: the set the
+                      members share is updated in place, not replaced); a created node gets the record *)
+                   (match live, al_ens fl, al_ens l with
+                    | true, Some e', Some e => Some (ens_union e e')
+                    | _, _, _ => or_else (al_ens fl) (al_ens l)
+                    end) in
     Ok (mkCx (assoc_set (cx_leaves cx1) k l') (cx_nodes cx1)).
 
   Fixpoint thaw_leaves (cx : actx) (l : list (key * aleaf)) : res actx :=
